@@ -29,7 +29,7 @@ fn comb(prop: &'static str, name: &str, case: Case) -> Regress {
     }
 }
 
-#[cfg(feature = "has-alloc")]
+#[cfg(feature = "with-co")]
 fn co(prop: &'static str, name: String, case: crate::costream::CoCase) -> Regress {
     let p = crate::props::co_prop(prop).unwrap();
     Regress {
@@ -48,7 +48,7 @@ pub fn cases(prop: &str) -> Vec<Regress> {
             v.push(comb("C08", "F1-merge-vec-zero-inputs", comb_case(Family::Merge, Container::Vec, vec![])));
             v.push(comb("C08", "merge-tuple-zero-inputs", comb_case(Family::Merge, Container::Tuple, vec![])));
         }
-        #[cfg(feature = "has-alloc")]
+        #[cfg(feature = "with-co")]
         "C15" => {
             use crate::costream::{Adapter, CoCase, SourceKind, Terminal};
             // F2: take(0) must process no item at all
